@@ -53,13 +53,17 @@ func (r Rule) marshalJSONObjectOrArray() ([]byte, error) {
 		Key       string        `json:"key,omitempty"`
 		TokenType RuleTokenType `json:"tokenType"`
 		Note      string        `json:"note,omitempty"`
-		Children  []Rule        `json:"children,omitempty"`
+		Children  []Rule        `json:"children"`
 	}
 
 	data.Key = r.Key
 	data.TokenType = r.TokenType
 	data.Note = r.Note
 	data.Children = r.Children
+	if data.Children == nil {
+		// An array or an object always has its list of children, even an empty one.
+		data.Children = []Rule{}
+	}
 
 	return json.Marshal(data)
 }
